@@ -16,6 +16,9 @@
   Hypotheses.  `PathHyp c`: all paths have `c.depth` components and different keys have different paths — for the real
   splitter this is `C28_path_injective_ns` and the length clause of `pathOfNS_fieldSum` (`Props/C28.lean`,
   `Algo/Splitter/Lemmas.lean`); nothing else about the hash is used (in particular not the widths of the array nodes).
+  It is PROVED for the configurations the trace replay runs (`cfgH hb ab shift` with the slices covering the 64 bits:
+  `C14_feldman_harness_hyp`, `C14_feldman_harness_hyp_all`; `C14_feldman_linearizable_harness` is the main theorem with
+  no hash hypothesis left) and for `cfgDeep d`.
   `c.copyFirst = true`: the order of `expand_slot` in the library; with `false` (the seeded change
   /verif/seeded/C14-feldman-expand-order) the theorems are false: see the last section.
   Assumptions of the model (not proved here): garbage-collected heap (an item or array node is not reused while a thread
@@ -24,6 +27,7 @@
   `cdsdriver replay feldman` (atomic events, allocation order of the array nodes, results).
 -/
 import CdsVerif.Algo.Feldman.Facts
+import CdsVerif.Algo.Feldman.HarnessCfg
 namespace CdsVerif.Props.C14Feldman
 open CdsVerif.Machine CdsVerif.Lin CdsVerif.Spec CdsVerif.Algo
 
@@ -179,8 +183,11 @@ theorem C14_feldman_only_erase_removes (c : Feldman.Cfg) (hp : Feldman.PathHyp c
 /-- The hypotheses are satisfiable at every depth (so none of the theorems above is vacuous): `cfgDeep d` is the WORST
     hash of depth `d + 1` — all keys share the first `d` slot indices and differ at the last level, every pair of keys
     forces `d` nested expansions.  (For the splitter of the real code the two clauses of `PathHyp` are
-    `C28_path_injective_ns` and `pathOfNS_fieldSum`; they hold for the 2^64 hash values, not for all of `Int`, which is
-    why the closed instance given here is not the harness configuration `cfgH`.) -/
+    `C28_path_injective_ns` and `pathOfNS_fieldSum`; they hold for the 2^64 hash values.  The harness configurations
+    `cfgH hb ab shift` are instances too: `C14_feldman_harness_hyp` at the end of this file — the hash `key << shift` is
+    perfect on the keys `0 ≤ k`, `k * 2 ^ shift < 2 ^ 64`, the only ones the harness uses, and `Feldman.pathOf` is
+    extended injectively to the other integers, for which that hash functor violates the precondition of the real
+    container.) -/
 theorem C14_feldman_hyp_satisfiable (d : Nat) :
     Feldman.PathHyp (Feldman.cfgDeep d) ∧ (Feldman.cfgDeep d).copyFirst = true :=
   Feldman.cfgDeep_hyp d
@@ -345,5 +352,86 @@ example : ¬ Linearizable map [⟨0, ins 2 10, [1], 0, 5⟩, ⟨1, fnd 2, [0], 1
   have := (linCheck_iff map _ (by decide)).mpr hlin
   revert this
   decide +kernel
+
+/-! ### The replayed configurations are instances
+
+  `cdsdriver replay feldman` builds `Feldman.cfgH hb ab shift` from the header words `hb= ab= shift=` of a harness trace
+  (`Feldman.replayInit`).  The harness client `hashset`, variant `ifset_hp_named`, uses the effective geometries
+  `(hb, ab)` = (4, 2), (4, 3), (6, 2), (7, 3) — in each the head slice and the `(64 - hb) / ab` array slices cover the 64
+  bits exactly —, `shift` ∈ {0, 2, 3, 5, 8, 13, 30, 56} and keys 0 … 5; `cfg = cfgH 4 2 3` above is one of them.
+  On the keys `0 ≤ k`, `k * 2 ^ shift < 2 ^ 64` the paths of `cfgH` are the slices of the code's hash `key << shift` (the
+  FeldmanHashSet precondition "perfect hash" holds there: the slices are the digits of a 64-bit value); off that domain
+  the hash functor of the harness is not perfect, the real container's precondition fails, and the model's path is an
+  arbitrary injective extension that no replayed trace uses (`Feldman.pathOf`).
+  Proof: `Algo/Feldman/HarnessCfg.lean` (`cfgH_hyp`). -/
+
+/-- The hypotheses of all theorems of this file hold for the configuration `hb=4 ab=2 shift=3` of the trace replay. -/
+theorem C14_feldman_harness_hyp :
+    Feldman.PathHyp (Feldman.cfgH 4 2 3) ∧ (Feldman.cfgH 4 2 3).copyFirst = true :=
+  Feldman.cfgH_4_2_3_hyp
+
+/-- … and for every geometry whose slices cover the 64 bits exactly, any shift. -/
+theorem C14_feldman_harness_hyp_general (hb ab shift : Nat) (hsum : hb + ab * ((64 - hb) / ab) = 64) :
+    Feldman.PathHyp (Feldman.cfgH hb ab shift) ∧ (Feldman.cfgH hb ab shift).copyFirst = true :=
+  ⟨Feldman.cfgH_hyp hb ab shift true hsum, rfl⟩
+
+/-- In particular for all the geometries the harness replays, with every shift. -/
+theorem C14_feldman_harness_hyp_all (g : Nat × Nat) (hg : g ∈ [(4, 2), (4, 3), (6, 2), (7, 3)]) (shift : Nat) :
+    Feldman.PathHyp (Feldman.cfgH g.1 g.2 shift) ∧ (Feldman.cfgH g.1 g.2 shift).copyFirst = true := by
+  simp only [List.mem_cons, List.not_mem_nil, or_false] at hg
+  rcases hg with rfl | rfl | rfl | rfl <;> exact C14_feldman_harness_hyp_general _ _ shift (by decide)
+
+/-- `C14_feldman_linearizable` for the replayed configuration `hb=4 ab=2 shift=3`: no hypothesis on the hash is left. -/
+theorem C14_feldman_linearizable_harness
+    (sched : List (Tid × Act)) (s : Feldman.St) (os : List (Tid × Obs))
+    (h : (Feldman.model (Feldman.cfgH 4 2 3)).run Feldman.init sched = some (s, os)) :
+    ∃ extra : List (OpRec GOp GRet),
+      (∀ e ∈ extra, Feldman.pendingOf os e.tid = some (e.op, e.inv) ∧ e.res = os.length ∧
+          Feldman.retOf (s.pc e.tid) = some e.ret) ∧
+      extra.Pairwise (fun a b => a.tid ≠ b.tid) ∧
+      Linearizable map (Feldman.historyOf os ++ extra) :=
+  C14_feldman_linearizable (Feldman.cfgH 4 2 3) C14_feldman_harness_hyp.1 C14_feldman_harness_hyp.2 sched s os h
+
+/-- The same for every replayed geometry and shift (`hsum` is `by decide` for (4, 2), (4, 3), (6, 2), (7, 3)). -/
+theorem C14_feldman_linearizable_harness_general (hb ab shift : Nat) (hsum : hb + ab * ((64 - hb) / ab) = 64)
+    (sched : List (Tid × Act)) (s : Feldman.St) (os : List (Tid × Obs))
+    (h : (Feldman.model (Feldman.cfgH hb ab shift)).run Feldman.init sched = some (s, os)) :
+    ∃ extra : List (OpRec GOp GRet),
+      (∀ e ∈ extra, Feldman.pendingOf os e.tid = some (e.op, e.inv) ∧ e.res = os.length ∧
+          Feldman.retOf (s.pc e.tid) = some e.ret) ∧
+      extra.Pairwise (fun a b => a.tid ≠ b.tid) ∧
+      Linearizable map (Feldman.historyOf os ++ extra) :=
+  C14_feldman_linearizable (Feldman.cfgH hb ab shift) (C14_feldman_harness_hyp_general hb ab shift hsum).1 rfl
+    sched s os h
+
+/-- Complete runs of the replayed configuration. -/
+theorem C14_feldman_linearizable_complete_runs_harness
+    (sched : List (Tid × Act)) (s : Feldman.St) (os : List (Tid × Obs))
+    (h : (Feldman.model (Feldman.cfgH 4 2 3)).run Feldman.init sched = some (s, os)) (hq : ∀ t, s.pc t = .idle) :
+    Linearizable map (Feldman.historyOf os) :=
+  C14_feldman_linearizable_complete_runs (Feldman.cfgH 4 2 3) C14_feldman_harness_hyp.1 C14_feldman_harness_hyp.2
+    sched s os h hq
+
+/-- The theorem applied to the concrete runs above (which are runs of `cfg = cfgH 4 2 3`): whatever `expandSched` /
+    `raceSched` produce is linearizable — by the theorem, not by running `linCheck`. -/
+example (s : Feldman.St) (os : List (Tid × Obs)) (h : (Feldman.model cfg).run Feldman.init expandSched = some (s, os)) :
+    ∃ extra : List (OpRec GOp GRet),
+      (∀ e ∈ extra, Feldman.pendingOf os e.tid = some (e.op, e.inv) ∧ e.res = os.length ∧
+          Feldman.retOf (s.pc e.tid) = some e.ret) ∧
+      extra.Pairwise (fun a b => a.tid ≠ b.tid) ∧
+      Linearizable map (Feldman.historyOf os ++ extra) :=
+  C14_feldman_linearizable_harness expandSched s os h
+
+example (s : Feldman.St) (os : List (Tid × Obs)) (h : (Feldman.model cfg).run Feldman.init raceSched = some (s, os))
+    (hq : ∀ t, s.pc t = .idle) : Linearizable map (Feldman.historyOf os) :=
+  C14_feldman_linearizable_complete_runs_harness raceSched s os h hq
+
+/-- The run exists (so the examples above are not vacuous). -/
+example : ((Feldman.model cfg).run Feldman.init expandSched).isSome = true := by decide +kernel
+
+/-- The paths of the keys used above, and a key outside the domain of the harness hash. -/
+example : (Feldman.pathOf 4 2 3 2).take 3 = [0, 1, 0] ∧ (Feldman.pathOf 4 2 3 4).take 3 = [0, 2, 0] ∧
+    (Feldman.pathOf 4 2 3 6).take 3 = [0, 3, 0] ∧ (Feldman.pathOf 4 2 3 2).length = 31 ∧
+    Feldman.pathOf 4 2 3 (-1) = (2 ^ 64 + 3) :: List.replicate 30 0 := by decide +kernel
 
 end CdsVerif.Props.C14Feldman
